@@ -22,6 +22,7 @@ mod cfgp;
 mod toc;
 mod tlsch;
 mod snie;
+mod autocmp;
 mod server;
 mod tls;
 mod tcpc;
@@ -62,6 +63,7 @@ fn gen(stream: &str, seed: u64, n: u64) -> Vec<String> {
                 "toc" => toc::gen(&mut r, i),
                 "tlsch" => tlsch::gen(&mut r, i),
                 "snie" => snie::gen(&mut r, i),
+                "autocmp" => autocmp::gen(&mut r, i),
                 "srv" => server::gen(&mut r, i),
                 "tls" => tls::gen(&mut r, i),
                 "tcpc" => tcpc::gen(&mut r, i),
@@ -102,6 +104,7 @@ fn run_line(line: &str) -> String {
         "toc" => toc::run(&toks),
         "tlsch" => tlsch::run(&toks),
         "snie" => snie::run(&toks),
+        "autocmp" => autocmp::run(&toks),
         "srv" => server::run(&toks),
         "tls" => tls::run(&toks),
         "tcpc" => tcpc::run(&toks),
